@@ -40,6 +40,10 @@ case "$cmd" in
     [ "$eng" = none ] && { echo "MACHINERY-FAILURE: unknown property $id"; exit 2; }
     build_pkg "$eng" || exit 2
     export VERIF_TIER="$tier"
+    if [ "$id" = C16 ]; then
+      export VERIF_UNICODE_REF="$CARGO_TARGET_DIR/unicode_ref.txt"
+      python3 "$ROOT/tools/gen_unicode_ref.py" > "$VERIF_UNICODE_REF" || { echo "MACHINERY-FAILURE: gen_unicode_ref.py failed"; exit 2; }
+    fi
     "$CARGO_TARGET_DIR/release/$eng" "$id" "$tier"
     exit $? ;;
   replay)
